@@ -1187,6 +1187,20 @@ example :
     static (.bin .add false (.bin .gt false (.vector (.num 3)) (.num 2)) (.num 1)) = ⟨true, true, 4, false, true⟩ ∧
     eval (.bin .add false (.bin .gt false (.vector (.num 3)) (.num 2)) (.num 1)) = .v (some 4) := by decide
 
+/-- **C12, `or on()`**: when pint declares the right-hand side of `l or on() r` unused and no two vectors meet
+inside `l`, the operation returns what `l` returns, whatever `r` returns. (Without `on()` the verdict is the recorded
+finding `C12-or-rhs-declared-dead`: right-hand series with other labels are returned too.) -/
+theorem or_on_rhs_unused (l : SE) (hc : closed l = true) (hb : boolFree l = true) (ht : wellTyped l = true)
+    (hn : noVV l = true) (hv : isVec l = true) (hd : orRhsDead l = true) (y : Val) :
+    evalOrOn (eval l) y = eval l := by
+  simp only [orRhsDead, Bool.and_eq_true, Bool.not_eq_true'] at hd
+  obtain ⟨k, hk⟩ := vec_nonEmpty l hc hb ht hn hd.2 hv
+  rw [hk]
+  cases y <;> simp [evalOrOn]
+
+example : orRhsDead (.vector (.num 1)) = true ∧ orRhsDead (.bin .gt false (.vector (.num 1)) (.num 0)) = false ∧
+    orRhsDead .sel = false := by decide
+
 end staticFold
 
 end Pint.Props.C12
